@@ -135,6 +135,7 @@ func New(t *testing.T, c Consts) *Adapter {
 	gp.MaxDepositPeriod, gp.VotingPeriod, gp.ExpeditedVotingPeriod = &dep, &vot, &exp
 	gp.MinDeposit = sdk.NewCoins(world.FX(1000))
 	gp.ExpeditedMinDeposit = sdk.NewCoins(world.FX(2000))
+	gp.Quorum = "0.600000000000000000" // one of the two validators alone (the smaller one) is below quorum
 	must(w.Handle(ctx, &govv1.MsgUpdateParams{Authority: world.GovAddr(), Params: gp}))
 
 	a.reqr = w.Key(c.Chain + "/requester")
@@ -263,31 +264,45 @@ func (a *Adapter) submit(ctx sdk.Context, kind string) error {
 		vote := func(i int, opt govv1.VoteOption) error {
 			return a.W.Handle(c, govv1.NewMsgVote(sdk.AccAddress(a.W.ValAddr[i]), id, opt, ""))
 		}
+		weighted := func(i int, opts ...*govv1.WeightedVoteOption) error {
+			return a.W.Handle(c, govv1.NewMsgVoteWeighted(sdk.AccAddress(a.W.ValAddr[i]), id, opts, ""))
+		}
+		pattern := kind
 		switch kind {
-		case "pass", "bad":
-			for i := range a.W.ValAddr {
-				if err = vote(i, govv1.OptionYes); err != nil {
-					return err
-				}
-			}
-		case "rej":
-			for i := range a.W.ValAddr {
-				if err = vote(i, govv1.OptionNo); err != nil {
-					return err
-				}
-			}
-		case "veto":
-			for i := range a.W.ValAddr {
-				if err = vote(i, govv1.OptionNoWithVeto); err != nil {
-					return err
-				}
-			}
+		case "dep", "--":
+			pattern = "--"
+		case "bad":
+			pattern = "YY"
 		case "exp":
 			// validator 0 also carries the oracles' delegations: its No keeps yes <= 50% whatever they are
-			if err = vote(0, govv1.OptionNo); err != nil {
+			pattern = "NY"
+		case "W":
+			half := "0.500000000000000000"
+			if err = weighted(0, &govv1.WeightedVoteOption{Option: govv1.OptionYes, Weight: half}, &govv1.WeightedVoteOption{Option: govv1.OptionNo, Weight: half}); err != nil {
 				return err
 			}
-			if err = vote(1, govv1.OptionYes); err != nil {
+			return weighted(1, &govv1.WeightedVoteOption{Option: govv1.OptionYes, Weight: half}, &govv1.WeightedVoteOption{Option: govv1.OptionAbstain, Weight: half})
+		}
+		if len(pattern) != 2 {
+			return fmt.Errorf("unknown proposal kind %q", kind)
+		}
+		for i := 0; i < 2; i++ {
+			var opt govv1.VoteOption
+			switch pattern[i] {
+			case 'Y':
+				opt = govv1.OptionYes
+			case 'N':
+				opt = govv1.OptionNo
+			case 'A':
+				opt = govv1.OptionAbstain
+			case 'V':
+				opt = govv1.OptionNoWithVeto
+			case '-':
+				continue
+			default:
+				return fmt.Errorf("unknown proposal kind %q", kind)
+			}
+			if err = vote(i, opt); err != nil {
 				return err
 			}
 		}
@@ -340,6 +355,9 @@ func (a *Adapter) ApplyMsg(ctx sdk.Context, op graph.Op) error {
 			return fmt.Errorf("%s is not on the approved list", o)
 		}
 		return w.Handle(ctx, &types.MsgUpdateChainOracles{ChainName: a.Chain, Authority: world.GovAddr(), Oracles: a.approvedList(ctx, addr)})
+	case "AddStake":
+		return w.Handle(ctx, &types.MsgAddDelegate{ChainName: a.Chain, OracleAddress: a.oracleKey(op.Str("o")).AccAddress().String(),
+			Amount: types.NewDelegateAmount(powerUnit.MulRaw(op.Int("n")))})
 	case "CreateBatch":
 		// one transaction: MsgSendToExternal then MsgRequestBatch
 		return world.Atomic(ctx, func(c sdk.Context) error {
@@ -423,6 +441,7 @@ func (a *Adapter) Project(ctx sdk.Context) any {
 	}
 	reg, online, approved := map[string]bool{}, map[string]bool{}, map[string]bool{}
 	start := map[string]int64{}
+	power := map[string]int64{}
 	byAddr, byExt := map[string]string{}, map[string]string{}
 	var po types.ProposalOracle
 	if bz := st.Get(types.ProposalOracleKey); bz != nil {
@@ -437,11 +456,12 @@ func (a *Adapter) Project(ctx sdk.Context) any {
 		byAddr[string(addr.Bytes())] = o
 		byExt[a.ext(o)] = o
 		approved[o] = appr[addr.String()]
-		reg[o], online[o] = false, false
+		reg[o], online[o], power[o] = false, false, 0
 		if bz := st.Get(types.GetOracleKey(addr)); bz != nil {
 			var or types.Oracle
 			cdc.MustUnmarshal(bz, &or)
 			reg[o], online[o], start[o] = true, or.Online, or.StartHeight
+			power[o] = or.DelegateAmount.Quo(powerUnit).Int64()
 		}
 	}
 	var total int64
@@ -454,6 +474,13 @@ func (a *Adapter) Project(ctx sdk.Context) any {
 		m := map[string]bool{}
 		for _, o := range a.C.Oracle {
 			m[o] = false
+		}
+		return m
+	}
+	zeros := func() map[string]int64 {
+		m := map[string]int64{}
+		for _, o := range a.C.Oracle {
+			m[o] = 0
 		}
 		return m
 	}
@@ -498,18 +525,19 @@ func (a *Adapter) Project(ctx sdk.Context) any {
 		cf := confs(types.GetOracleSetConfirmKey(n, sdk.AccAddress{}))
 		os, ok := found[n]
 		if !ok {
-			sets = append(sets, map[string]any{"ex": false, "age": a.C.W + 1, "conf": cf, "elig": flags(), "mem": flags()})
+			sets = append(sets, map[string]any{"ex": false, "age": a.C.W + 1, "conf": cf, "elig": flags(), "np": zeros()})
 			continue
 		}
-		mem := flags()
+		// members' normalised powers (32 bit in the store) at 20 bits
+		np := zeros()
 		for _, m := range os.Members {
 			if o, ok := byExt[m.ExternalAddress]; ok {
-				mem[o] = true
+				np[o] = int64(m.Power / 4096)
 			} else {
-				mem["?"+m.ExternalAddress] = true
+				np["?"+m.ExternalAddress] = int64(m.Power / 4096)
 			}
 		}
-		sets = append(sets, map[string]any{"ex": true, "age": a.capAge(now, os.Height), "conf": cf, "elig": elig(os.Height), "mem": mem})
+		sets = append(sets, map[string]any{"ex": true, "age": a.capAge(now, os.Height), "conf": cf, "elig": elig(os.Height), "np": np})
 	}
 	var lastObs int64
 	if bz := st.Get(types.LastObservedOracleSetKey); bz != nil {
@@ -621,7 +649,7 @@ func (a *Adapter) Project(ctx sdk.Context) any {
 		props = append(props, map[string]any{"kind": p.Title, "status": status, "left": left})
 	}
 	return map[string]any{
-		"reg": reg, "online": online, "approved": approved, "totalPower": total,
+		"reg": reg, "online": online, "approved": approved, "power": power, "totalPower": total,
 		"sets": sets, "latest": latest, "slashedSet": u64(types.LastSlashedOracleSetNonce), "lastObsSet": lastObs,
 		"batches": batches, "slashedBatch": slashedBatch, "calls": calls, "slashedCall": u64(types.LastSlashedBridgeCallNonce),
 		"props": props,
